@@ -13,6 +13,9 @@ UNIT = dict(
     extract=[
         dict(id="Watcher", kind="type", src=F, name="Watcher", structural=True),
         dict(id="WatchedPath", kind="type", src="crates/lib/src/watched_path.rs", name="WatchedPath", structural=True, add_derive=["Copy"]),
+        dict(id="WatchedPath::recursive", kind="fn", src="crates/lib/src/watched_path.rs", impl="impl WatchedPath", name="recursive", rules=dict(pre_subst=[("path.into()", "path")])),
+        dict(id="WatchedPath::non_recursive", kind="fn", src="crates/lib/src/watched_path.rs", impl="impl WatchedPath", name="non_recursive", rules=dict(pre_subst=[("path.into()", "path")])),
+        dict(id="WatchedPath::from_pathbuf", kind="fn", src="crates/lib/src/watched_path.rs", impl="impl From<PathBuf> for WatchedPath", name="from", emit_impl="impl WatchedPath"),
         dict(id="Watcher::create", kind="fn", src=F, impl="impl Watcher", name="create",
              rules=dict(outline=[(".map_err(|err| CriticalError::FsWatcherInit", ".vx_init_err(self", "whole")], pre_subst=[
                  ("use notify::{Config, Watcher as _};", ""),
